@@ -8,6 +8,7 @@ import (
 	"regexp"
 	"sort"
 	"strings"
+	"time"
 
 	"github.com/janelia-flyem/dvid/datastore"
 	"github.com/janelia-flyem/dvid/dvid"
@@ -272,6 +273,47 @@ func c02Stability(c *Ctx) {
 					untouched, untouchedParent = a, p
 					c.Count("stability.untouched-committed-version")
 				}
+			}
+		}
+		// later history of other kinds: a merge of two committed versions with writes below it, a new data
+		// instance, deletion of a data instance, and a reopening of the datastore (restart)
+		{
+			var locked []*wnode
+			for _, n := range w.nodes {
+				if n.locked {
+					locked = append(locked, n)
+				}
+			}
+			if len(locked) >= 2 {
+				a, b := locked[r.Intn(len(locked))], locked[r.Intn(len(locked))]
+				if a != b {
+					if m, resp := Merge([]string{a.uuid, b.uuid}); resp.OK() && m != "" {
+						for i := 0; i < 3; i++ {
+							Post("node/"+m+"/kv/key/"+worldKeys[r.Intn(len(worldKeys))], []byte(fmt.Sprintf("below-merge-%d", i)))
+						}
+						w.log("merge of v%d and v%d, key-value writes at the merge node", a.v, b.v)
+						c.Count("stability.merge")
+					}
+				}
+			}
+			extra := fmt.Sprintf("extra%d", h)
+			if o := w.open(); len(o) > 0 && NewInstance(o[0].uuid, "keyvalue", extra, nil).OK() {
+				Post("node/"+o[0].uuid+"/"+extra+"/key/x", []byte("x"))
+				datastore.DeleteDataByName(dvid.UUID(w.root), dvid.InstanceName(extra), "")
+				for i := 0; i < 100; i++ {
+					if resp := NewInstance(o[0].uuid, "keyvalue", extra, nil); resp.OK() {
+						break // the name is free again: the deletion has finished
+					}
+					time.Sleep(20 * time.Millisecond)
+				}
+				w.log("data instance %s created, written, deleted, created again", extra)
+				c.Count("stability.instance-create-delete")
+			}
+			if h%2 == 1 {
+				w.settle()
+				datastore.CloseReopenTest()
+				w.log("datastore closed and reopened")
+				c.Count("stability.reopen")
 			}
 		}
 		final := w.Snapshot()
